@@ -10,6 +10,7 @@ import (
 	"path/filepath"
 	"strings"
 	"sync"
+	"syscall"
 	"time"
 
 	"github.com/la5nta/wl2k-go/fbb"
@@ -126,6 +127,12 @@ func BuildMessage(spec MsgSpec, from, to string, seed int64) *fbb.Message {
 			m.AddFile(fbb.NewFile(name, data)) // the same attachment twice (same name, same size) is two attachments
 		}
 	}
+	if spec.Size == "huge" {
+		// more than 999999 bytes compressed: beyond what a resume offset can address, but a message like any other
+		data := make([]byte, 1050000)
+		rng.Read(data)
+		m.AddFile(fbb.NewFile("huge-"+spec.MID+".bin", data))
+	}
 	return m
 }
 
@@ -153,6 +160,7 @@ type Station struct {
 	GateFrom     int // first gated call (default 2)
 	nOutbound    int
 	FSFailAt     int // directory mailbox: the n-th store hits a real file-system fault
+	FSPartialAt  int // ... in the middle of writing the file (the process's file size limit is lowered for the call)
 	nStore       int
 	Batched      bool
 	NilAnswers   bool
@@ -348,7 +356,17 @@ func (s *Station) ProcessInbound(msgs ...*fbb.Message) error {
 				block = filepath.Join(s.Dir.MBoxPath, "in", m.MID()+".b2f")
 				os.MkdirAll(filepath.Join(block, "occupied"), 0755)
 			}
+			var lim syscall.Rlimit
+			partial := s.FSPartialAt > 0 && s.nStore == s.FSPartialAt && syscall.Getrlimit(syscall.RLIMIT_FSIZE, &lim) == nil
+			if partial {
+				low := lim
+				low.Cur = uint64(len(b)/2 + 1)
+				syscall.Setrlimit(syscall.RLIMIT_FSIZE, &low)
+			}
 			err := s.Dir.ProcessInbound(m)
+			if partial {
+				syscall.Setrlimit(syscall.RLIMIT_FSIZE, &lim)
+			}
 			if block != "" {
 				os.RemoveAll(block)
 			}
